@@ -28,7 +28,7 @@ COMPONENTS = {"real": REAL_BASE + ["LAN.send/_connect/_disconnect/authenticate r
 E = 1.0 / 1024
 DELAYS = [0.05, 1.0, 2 - E, 2.0, 2 + E, 2.5, 4 - E, 4 + E, 5.9, None]
 FAULTS_DATA = ["timing", "drop_all", "garbage_random", "garbage_marker", "garbage_trunc", "fin_wait", "rst_wait",
-               "fin_idle", "refuse", "hang", "cancel", "accept_close", "accept_reset"]
+               "fin_idle", "refuse", "hang", "cancel", "accept_close", "accept_reset", "slow_connect"]
 FAULTS_V3 = ["error_packet", "hs_drop_all", "hs_drop_some", "hs_error", "hs_garbage_marker", "hs_garbage_random",
              "hs_close", "hs_late", "dup_rejected"]
 
@@ -298,6 +298,22 @@ def run(plan):
                         if not dels and len(tx) != 3:
                             res.fail("refresh gave up before using all retries", f"{len(tx)}")
                             return
+                        # a complete response delivered strictly inside one of the three read windows: online
+                        T0 = tx[0]["t"]
+                        inside = None
+                        for (a, b) in conn.state.get("good_spans", []):
+                            for (t, start, end) in conn.deliveries:
+                                if end >= b:
+                                    if t > T0 + 1e-9 and (inside is None or t < inside):
+                                        inside = t
+                                    break
+                        if inside is not None and not conn.state.get("desync"):
+                            off = inside - T0
+                            tie = abs(off - 2.0 * round(off / 2.0)) < 1e-6
+                            if off < 6.0 - 1e-6 and not tie and not ac.online:
+                                res.fail("refresh reports offline although a response arrived inside a read window",
+                                         f"response {off:.3f} s after the first transmission, {len(tx)} transmissions")
+                                return
             if kind == "fin_idle" and set(fx) <= {"kind", "r", "api", "pre_close", "pre_rst", "pre_burst", "idle"}:
                 # the unit hung up while the connection was idle (with or without unread reports in the queue): no
                 # exchange has failed so far, and the unit answers promptly on a new connection
@@ -362,6 +378,13 @@ def run(plan):
             return
         evs = dev.log[n0:]
         check_retry_contract("recovery", evs, 3, o, False, t0)
+        # nothing is left behind: at most one connection of this object is still open
+        await asyncio.sleep(6.0)
+        still_open = [c for c in w.net.conns if c.server is dev and not c.client_closed and not c.peer_closed]
+        if len(still_open) > 1:
+            res.fail("recovery: connections opened by earlier (failed) attempts were never closed",
+                     f"{len(still_open)} connections still open: cids {[c.cid for c in still_open]}")
+            return
         if version == 3:
             # data on a connection only after a handshake on that connection
             for cid in {e["cid"] for e in evs if e["kind"] == "enc_req"}:
@@ -428,6 +451,13 @@ def gen_fault(rng, version, kind=None, first=True):
     elif kind == "hang":
         fx["pre_close"] = True
         fx["conn"] = [["hang", 0]]
+    elif kind == "slow_connect":
+        # the connection is established, but slowly: just inside the 5 s connect timeout, or after it has expired
+        fx["pre_close"] = True
+        fx["conn"] = [["accept", rng.choice([0.5, 2.5, 4.5, 4.99, 5.5, 6.0, 9.0])]]
+        if rng.random() < 0.6:
+            n = 3 if fx["api"] != "send" else fx["r"]
+            fx["net"] = [rng.choice([{"drop": True}, {"lat": 1.0}, {}]) for _ in range(n)]
     elif kind == "accept_close":
         fx["pre_close"] = True
         fx["conn"] = [["accept_close", E]]
